@@ -145,6 +145,14 @@ def reference_methods():
         return set(json.load(fh).get("all_methods", []))
 
 
+def reference_attrs():
+    """every private `Class._name` (attribute or method) of the reference tree, or None when there is no inventory"""
+    if not os.path.exists(ROLES):
+        return None
+    with open(ROLES) as fh:
+        return set(json.load(fh).get("attrs", {}))
+
+
 def _sim(a, b):
     a, b = set(map(tuple, a)), set(map(tuple, b))
     if not a or not b:
